@@ -83,20 +83,20 @@ Proof.
   intros nw t G pr WF G'. subst G'. destruct WF as [IDX PTR LAST]. pose proof IDX as (ND & NK & HM).
   unfold update_entry. destruct (assoc (p_id pr) (g_map G)) as [ptr|] eqn:E.
   - apply assoc_in in E. apply HM in E. destruct E as [Hin Hid].
-    exists ptr. cbn. unfold entry_at; cbn. repeat split; auto.
-    + apply nth_set_nth_eq. auto.
-    + apply nth_set_nth_neq. auto.
-    + intros Hq. apply H0. eapply idx_ids_inj; eauto. unfold idof in Hq. congruence.
+    exists ptr. cbn. unfold entry_at; cbn.
+    split; [exact Hin|]. split; [apply nth_set_nth_eq; auto|]. split; [auto|]. split; [|auto].
+    intros q Hq Hne. split; [exact Hq|]. split; [apply nth_set_nth_neq; auto|].
+    intros Hq2. apply Hne. eapply idx_ids_inj; eauto. unfold idof in Hq2. congruence.
   - apply assoc_none in E.
-    exists (length (g_ents G)). cbn. unfold entry_at; cbn. repeat split.
-    + apply in_or_app. right. cbn; auto.
-    + rewrite app_nth2, Nat.sub_diag; auto.
-    + intros q Hq. apply in_or_app; auto.
-    + apply in_app_or in H. destruct H as [H|[H|[]]]; [auto|congruence].
-    + apply in_app_or in H. destruct H as [H|[H|[]]]; [|congruence].
-      apply app_nth1. auto.
-    + intros Hq. apply in_app_or in H. destruct H as [H|[H|[]]]; [|congruence].
-      apply E. replace (p_id pr) with (fst (p_id pr, q)) by reflexivity. apply in_map. apply HM. auto.
+    exists (length (g_ents G)). cbn. unfold entry_at; cbn.
+    split; [apply in_or_app; right; cbn; auto|].
+    split; [rewrite app_nth2, Nat.sub_diag; auto|].
+    split; [intros q Hq; apply in_or_app; auto|].
+    split.
+    + intros q Hq Hne. apply in_app_or in Hq. destruct Hq as [Hq|[Hq|[]]]; [|congruence].
+      split; [exact Hq|]. split; [apply app_nth1; auto|].
+      intros Hq2. apply E. replace (p_id pr) with (fst (p_id pr, q)) by reflexivity.
+      apply in_map. apply HM. auto.
     + intros H. apply PTR in H. lia.
 Qed.
 
@@ -110,10 +110,7 @@ Proof.
       - rewrite nth_set_nth_eq by auto. cbn. symmetry. exact Hid.
       - rewrite nth_set_nth_neq by auto. reflexivity. }
     constructor; cbn.
-    + repeat split; auto.
-      * intros H. apply HM in H. destruct H; auto.
-      * intros H. apply HM in H. destruct H as [_ H]. now rewrite EID.
-      * intros [H1 H2]. apply HM. rewrite EID in H2. auto.
+    + split; [exact ND|]. split; [exact NK|]. intros i p. rewrite EID. apply HM.
     + intros p Hp. rewrite set_nth_length. auto.
     + intros p Hp. unfold entry_at; cbn. destruct (Nat.eq_dec ptr p) as [->|Hne].
       * rewrite nth_set_nth_eq by auto. cbn. lia.
@@ -124,20 +121,19 @@ Proof.
                   eid (g_ents G ++ [mkent pr (nw + t)]) q = eid (g_ents G) q).
     { intros q Hq. unfold eid. now rewrite app_nth1. }
     assert (EIDN : eid (g_ents G ++ [mkent pr (nw + t)]) (length (g_ents G)) = p_id pr).
-    { unfold eid. now rewrite app_nth2, Nat.sub_diag. }
+    { unfold eid. rewrite app_nth2 by lia. rewrite Nat.sub_diag. reflexivity. }
     constructor; cbn.
-    + repeat split.
-      * apply NoDup_app_comm_single; auto.
+    + split; [|split].
+      * apply NoDup_app; [exact ND|repeat constructor; cbn; tauto|].
+        intros x Hx [Hx2|[]]. subst. tauto.
       * constructor; auto.
-      * destruct H as [H|H].
-        -- inversion H; subst. apply in_or_app; right; cbn; auto.
-        -- apply HM in H. apply in_or_app; tauto.
-      * destruct H as [H|H].
-        -- inversion H; subst. exact EIDN.
-        -- apply HM in H. destruct H as [H1 H2]. rewrite EID; auto.
-      * intros [H1 H2]. apply in_app_or in H1. destruct H1 as [H1|[H1|[]]].
-        -- right. apply HM. rewrite EID in H2; auto.
-        -- subst p. left. rewrite EIDN in H2. congruence.
+      * intros i p. split.
+        -- intros [H|H].
+           ++ inversion H; subst. split; [apply in_or_app; right; cbn; auto|exact EIDN].
+           ++ apply HM in H. destruct H as [H1 H2]. split; [apply in_or_app; auto|]. rewrite EID; auto.
+        -- intros [H1 H2]. apply in_app_or in H1. destruct H1 as [H1|[H1|[]]].
+           ++ right. apply HM. rewrite EID in H2; auto.
+           ++ subst p. left. rewrite EIDN in H2. congruence.
     + intros p Hp. rewrite app_length. cbn. apply in_app_or in Hp. destruct Hp as [Hp|[Hp|[]]]; [apply PTR in Hp|]; lia.
     + intros p Hp. unfold entry_at; cbn. apply in_app_or in Hp. destruct Hp as [Hp|[Hp|[]]].
       * rewrite app_nth1 by auto. specialize (LAST p Hp). unfold entry_at in LAST. lia.
